@@ -125,6 +125,9 @@ func c19Build(cs c19Case, emptyFirst bool) (*world.World, error) {
 			cCreateIndex("d", coll, bD("x", int32(1)), idxOpt{}).Do(w)
 		case "uy":
 			cCreateIndex("d", coll, bD("y", int32(1)), idxOpt{unique: true}).Do(w)
+		case "px":
+			// a partial index that only the third document falls under
+			cCreateIndex("d", coll, bD("x", int32(1)), idxOpt{partial: bD("y", bD("$gt", int32(2)))}).Do(w)
 		}
 		return nil
 	}
@@ -226,11 +229,11 @@ func init() {
 		}
 		var cases []c19Case
 		for _, ttl := range ttlSets {
-			for ei, extra := range []string{"", "x", "uy"} {
+			for ei, extra := range []string{"", "x", "uy", "px"} {
 				for _, other := range []bool{false, true} {
 					for di, ds := range docSets {
 						// the extra-index and other-namespace dimensions are crossed with a third of the document sets each
-						if ei > 0 && di%3 != ei {
+						if ei > 0 && di%3 != ei%3 {
 							continue
 						}
 						cases = append(cases, c19Case{ttl, extra, other, ds})
@@ -238,12 +241,16 @@ func init() {
 				}
 			}
 		}
-		var removedDocs, passes, noopPasses, failedCommits, reloads int64
+		var removedDocs, passes, noopPasses, failedCommits, reloads, latePasses int64
 		par.For(len(cases), r.TooMany, func(ci int) {
 			cs := cases[ci]
 			rep := map[string]interface{}{"case": cs.String()}
 			viol := func(class, what string) { r.Violation(class, what+"; "+cs.String(), rep) }
 			for variant := 0; variant < 4; variant++ {
+				// quick: every case as a plain pass, and each of the three other variants for a third of the cases
+				if c.Quick() && variant > 0 && ci%3 != variant-1 {
+					continue
+				}
 				w, err := c19Build(cs, variant == 3)
 				if err != nil {
 					r.Broken("build: %v (%s)", err, cs)
@@ -352,6 +359,26 @@ func init() {
 				if d2, err := c19Pass(w); err != nil || d2 || w.Engine.Catalog() != snap2 {
 					viol("second-pass-not-idempotent", fmt.Sprintf("%s: an immediate second pass changed something (dirty=%v err=%v)", name, d2, err))
 				}
+				// the indexes keep expiring after the pass: a document that arrives later with 90 days old dates is removed by
+				// the next pass exactly if its collection has a TTL index
+				late := bD("_id", int32(99), "t", primitive.NewDateTimeFromTime(now.Add(-90*24*time.Hour)), "u", primitive.NewDateTimeFromTime(now.Add(-90*24*time.Hour)), "x", int32(99), "y", int32(99))
+				for _, coll := range []string{"c", "e"} {
+					if _, err := w.C("d", coll).InsertOne(w.Ctx, late); err != nil {
+						viol("late-insert-fails", name+": "+err.Error())
+					}
+				}
+				if _, err := c19Pass(w); err != nil {
+					viol("pass-fails", name+": pass after a later insert: "+err.Error())
+				}
+				for coll, has := range map[string]bool{"c": len(cs.ttl) > 0, "e": cs.other} {
+					n, _ := w.C("d", coll).CountDocuments(w.Ctx, bD("_id", int32(99)))
+					if has && n != 0 {
+						viol("later-document-kept", fmt.Sprintf("%s: a document with 90 days old dates inserted into d.%s after the pass is not removed by the next pass", name, coll))
+					} else if !has && n != 1 {
+						viol("later-document-removed", fmt.Sprintf("%s: a document inserted into d.%s (no TTL index) after the pass was removed by the next pass", name, coll))
+					}
+				}
+				atomic.AddInt64(&latePasses, 1)
 				w.Close()
 			}
 		})
@@ -370,8 +397,9 @@ func init() {
 		r.Set("documents_expected_to_expire", removedDocs)
 		r.Set("failed_commit_variants", failedCommits)
 		r.Set("reload_variants", reloads)
+		r.Set("passes_over_later_documents", latePasses)
 		r.Set("distinct_nontrivial", passes-noopPasses)
-		r.Set("grammar_sizes", map[string]interface{}{"field_value_classes": len(vals), "ttl_index_sets": len(ttlSets), "document_sets": len(docSets), "extra_index_kinds": 3, "other_namespace": 2, "variants": 4})
+		r.Set("grammar_sizes", map[string]interface{}{"field_value_classes": len(vals), "ttl_index_sets": len(ttlSets), "document_sets": len(docSets), "extra_index_kinds": 4, "other_namespace": 2, "variants": 4})
 		r.Set("exhaustive", !r.TooMany())
 		var names []string
 		for _, v := range vals {
